@@ -195,7 +195,8 @@ func filterOpsByVersionTime(ops []*operation.AnchoredOperation, timeStr string) 
 	}
 
 	for _, op := range ops {
-		if op.TransactionTime <= uint64(vt.Unix()) {
+		// a version time before the Unix epoch precedes every transaction time (and must not wrap around as unsigned)
+		if vt.Unix() >= 0 && op.TransactionTime <= uint64(vt.Unix()) {
 			filteredOps = append(filteredOps, op)
 		}
 	}
